@@ -1,5 +1,6 @@
 """C04 - inbound payments are claimable only if complete and authentic; all-or-nothing (structural part)."""
 from engine import *
+import re
 
 CM = 'lightning::ln::channelmanager::ChannelManager::'
 CMP = 'lightning::ln::channelmanager::'
@@ -251,6 +252,11 @@ def r04h(F):
 	custom = [v for v in vs if 'CustomFinalCltv' in v]
 	oka = bool(dec) and bool(clear_blocks) and len(custom) == 2
 	out.append(Result('04.h', oka, ('ok:' if oka else 'anchor:') + 'expiry-decode-site', 'verify decodes the expiry with from_be_bytes after the method switch (%d decode site(s), %d custom-CLTV methods)' % (len(dec), len(custom)), len(dec), where=F.where(vfu.name)))
+	if oka:
+		late = vfu.path(dec, sorted(clear_blocks))
+		fed = all(vfu.reach([c]) & set(dec) for c in clear_blocks)
+		oko = late is None and fed
+		out.append(Result('04.h', oko, ('ok:' if oko else 'order:') + 'cleared-before-decoded', 'the delta bytes are cleared before the expiry is decoded, never after%s' % ('' if oko else ' - the expiry is decoded at line %s and the bytes are cleared only afterwards (lines %s): for a custom-delta secret the decoded expiry still contains the delta << 48 and the secret never expires' % (vfu.line_of(dec[0]), sorted({vfu.line_of(c) for c in clear_blocks}))), len(dec) + len(clear_blocks), where=F.where(vfu.name, vfu.line_of(dec[0]))))
 	# the delta returned to the caller (min_final_cltv_expiry_delta) is read by the delta reader in the same arms
 	rd = set(sites_call(vfu, [IP + 'min_final_cltv_expiry_delta_from_info']))
 	okr = bool(rd) and all(vfu.reach([b]) & clear_blocks for b in rd)
@@ -262,11 +268,42 @@ def r04h(F):
 	out.append(Result('04.h', okb, ('ok:' if okb else 'guard:') + 'timestamp-fits-48-bits', 'construct_info_bytes refuses an expiry timestamp above 2^48-1 when a custom delta is stored (%s)' % [g.text()[:80] for g in b48], len(gs), where=F.where(wfu.name)))
 	return out
 
+def r04i(F):
+	"""what PaymentClaimable tells the user (amount, skimmed fee, claim deadline, channels) is computed from the complete HTLC set, i.e. after
+	the part that completed the payment was added by check_incoming_mpp_part"""
+	out = []
+	fn = CM + 'handle_claimable_htlc'
+	fu = F.func(fn)
+	cb = set(sites_call(fu, [CM + 'check_incoming_mpp_part']))
+	if len(cb) != 1:
+		return [Result('04.i', False, 'anchor:check_incoming_mpp_part', 'handle_claimable_htlc: expected one call of check_incoming_mpp_part, found %d' % len(cb), where=F.where(fn))]
+	agg = [b for b, ci in fu.calls() if norm(ci.get('f') or ci.get('t') or '').rsplit('::', 1)[-1] in ('min', 'max', 'sum', 'fold', 'min_by_key', 'total_counterparty_skimmed_msat', 'receiving_channel_ids', 'inbound_payment_id')]
+	early = [b for b in agg if fu.path([0], [b], removed_blocks=cb) is not None]
+	ok = len(agg) >= 4 and not early
+	out.append(Result('04.i', ok, ('ok:' if ok else 'stale:') + 'event-fields-from-complete-set', 'handle_claimable_htlc: the %d aggregations over the payment\'s HTLC set (sum / min / skimmed fee / channel ids) all happen after check_incoming_mpp_part added the new part%s' % (len(agg), '' if not early else ' - computed before the part is added at lines %s: the reported amount / claim deadline ignores the part that completed the payment' % sorted({fu.line_of(b) for b in early})), len(agg), where=F.where(fn, fu.line_of(sorted(early)[0]) if early else None)))
+	# and the deadline field is fed by a minimum taken there
+	acts = sites_construct(fu, 'Event', 'PaymentClaimable')
+	ex = Expr(fu)
+	okd = False
+	for b, si in acts:
+		rv = fu.blocks[b]['s'][si][2]
+		if 'claim_deadline' in rv[5]:
+			e = ex.of_operand(rv[4][rv[5].index('claim_deadline')])
+			okd = any(c.endswith('Iterator::min') for c in expr_leaves(e)['calls'])
+			# `match iter.min() { Some(d) => d, None => fallback }`: the value is a local assigned in both arms
+			for m in re.finditer(r'\b_(\d+)\b', expr_str(e)):
+				for bi, si2, pl, rv2 in fu.defs.get(int(m.group(1)), []):
+					if len(pl) == 1 and any(c.endswith('Iterator::min') for c in expr_leaves(ex.of_rvalue(rv2))['calls']):
+						okd = True
+	out.append(Result('04.i', okd, ('ok:' if okd else 'shape:') + 'deadline-is-minimum', 'PaymentClaimable.claim_deadline derives from Iterator::min over the parts', len(acts), where=F.where(fn)))
+	return out
+
 RULES = [
 	('04.h', 'custom min-final-CLTV delta bytes: creation, delta reader and expiry decoder agree; expiry test uses the cleared value', r04h),
 	('04.a', 'inbound_payment::verify: Ok only past authentication, minimum amount and expiry', r04a),
 	('04.b', 'receive pipeline: handle_claimable_htlc only through verify Ok (one reviewed exemption) and the custom CLTV guard', r04b),
 	('04.c', 'PaymentClaimable only in handle_claimable_htlc on Ok(true) of the completion check; no parts added while claiming; purposes match', r04c),
+	('04.i', 'PaymentClaimable amount / deadline / channels are aggregated over the complete HTLC set, after the completing part was added', r04i),
 	('04.d', 'MPP completion predicate, bounded sum, agreement with the timer-side sibling', r04d),
 	('04.f', 'claim only behind the amount re-check; a refused claim fails every part', r04f),
 	('04.g', 'final-hop amount and cltv guards', r04g),
